@@ -16,7 +16,7 @@ NCPU = int(os.environ.get('VERIF_JOBS', '0')) or max(1, (os.cpu_count() or 2))
 class Obl(object):
     """One proof obligation: a generated harness module and the function in it that CrossHair must confirm."""
 
-    def __init__(self, name, src, fn='obl', twin='twin', timeout=60, twin_timeout=20, expect='hold', finding=None, meta=None, engine='E1'):
+    def __init__(self, name, src, fn='obl', twin='twin', timeout=60, twin_timeout=20, expect='hold', finding=None, meta=None, engine='E1', replayer=None):
         self.name = name
         self.src = src
         self.fn = fn
@@ -27,6 +27,7 @@ class Obl(object):
         self.finding = finding
         self.meta = meta or {}
         self.engine = engine
+        self.replayer = replayer   # for engine='script': (module, function, leading args) that re-runs concrete arguments against the real code
         self.path = None
 
 
@@ -335,7 +336,12 @@ def replay_file(path):
     ob.path = os.path.join(bdir, 'replay.py')
     with open(ob.path, 'w') as f:
         f.write(ob.src)
-    rp = run_replay(ob.path, ob.fn, d['args'])
+    if ob.replayer is not None:
+        import importlib
+        mod_name, fn_name, lead = ob.replayer
+        rp = getattr(importlib.import_module(mod_name), fn_name)(*(list(lead) + [ast.literal_eval(d['args'])]))
+    else:
+        rp = run_replay(ob.path, ob.fn, d['args'])
     print(json.dumps(rp, indent=1))
     if rp['outcome'] in ('false', 'raise', 'hang'):
         print('VIOLATION property=%s replay=%s' % (prop_id, path))
